@@ -7,6 +7,7 @@ import (
 	"bytes"
 	"encoding/hex"
 	"fmt"
+	"reflect"
 	"sort"
 	"strconv"
 	"strings"
@@ -103,6 +104,15 @@ func (u *Universe) msgCase(out *bufio.Writer, ti *TypeInfo, v *Val, o buildOpts)
 		fmt.Fprintf(out, "msg\t%s\t%s\t%s\tHARNESS\tbuild:%v\t\n", typeRef(ti), ti.Key, v, err)
 		return
 	}
+	// half of the cases carry their time.Time values in a non-UTC location (time.Now()/time.Unix() do)
+	var twin interface{}
+	if zone := len(v.String()) % 4; zone >= 2 {
+		if tw, err := u.build(ti, v, o); err == nil {
+			twin = tw
+			localizeTimes(reflect.ValueOf(m).Elem(), zone == 2)
+			localizeTimes(reflect.ValueOf(twin).Elem(), zone == 2)
+		}
+	}
 	before, _ := u.read(ti, m)
 	data, pan := safeMarshal(m)
 	if pan != "" {
@@ -113,6 +123,9 @@ func (u *Universe) msgCase(out *bufio.Writer, ti *TypeInfo, v *Val, o buildOpts)
 	if before.String() != after.String() {
 		flags = append(flags, "immut=bad")
 		detail = append(detail, "after-marshal="+after.String())
+	} else if twin != nil && !sameTimes(reflect.ValueOf(m), reflect.ValueOf(twin)) {
+		flags = append(flags, "immut=bad")
+		detail = append(detail, "after-marshal: a time.Time of the message was rewritten (location/monotonic reading)")
 	} else {
 		flags = append(flags, "immut=ok")
 	}
